@@ -2,6 +2,26 @@
 over the shards; budgets are case counts, never time."""
 
 PROPS = {
+    "C10": {
+        "pkg": "c10", "needs_gw": False, "level": "exploration",
+        "technique": "stateful property-based testing (rapid) against a lock-state model: protected states x programs of destructive requests x callers x bypass header; oracle = the protected version stays retrievable byte-exact, retention is never weakened illegitimately",
+        "level_text": ("Generated programs (1-10 steps): a lock-enabled bucket (versioned with a versioning directory, or unversioned) holds one object "
+                       "under legal hold, COMPLIANCE or GOVERNANCE retention (+1 h) or a bucket default retention; steps are put-overwrite, copy onto, "
+                       "multipart completion onto, delete, delete by version id, batch delete (with / without version id), delete bucket, put retention "
+                       "(shorter, longer, other mode, past date), legal hold off / on, put lock configuration, suspend versioning, put bucket policy "
+                       "(optionally granting the caller s3:BypassGovernanceRetention), issued by root, an admin, the owner and another user with or "
+                       "without the bypass permission, with or without the bypass header. Model: protection ends only by an authorised legal-hold "
+                       "OFF, by a GOVERNANCE bypass of a permission holder (root / admin with the header: outcome not judged), by removal of the "
+                       "default rule, or by expiry. After every step, while the model says protected, GET of the version (by id when versioned) "
+                       "returns the original bytes; a COMPLIANCE retention is never shortened / downgraded, a GOVERNANCE one only by a permission holder."),
+        "level_note": "removing the bucket default retention rule ends the protection it gave (the gateway keeps no per-object copy of a default retention; recorded as a modelling decision, see DESIGN.md). In-process engine. Exploration only.",
+        "rule": ("case = (versioned, sidecar, protection, bob's bypass permission, ops). Non-trivial: a destructive request was accepted while protection was in "
+                 "force (legitimately or not) or a weakening was refused; distinct by the full case."),
+        "assumptions": ["retention dates are now + minutes, never near a boundary", "in-process engine replicates runGateway wiring"],
+        "jobs": [
+            {"run": "TestC10A", "quick": 9000, "thorough": 400000, "shards_quick": 16, "shards_thorough": 16},
+        ],
+    },
     "C09": {
         "pkg": "c09", "needs_gw": False, "level": "exploration",
         "technique": "stateful property-based testing (rapid) against a version-stack model: put / copy / multipart-complete / delete / delete-by-version / get-by-version / list-versions (paged) / enable / suspend programs incl. objects that predate enabling",
